@@ -375,6 +375,14 @@ def run(ctx):
             for bb, t in cm.local_calls(vs, p, exact=fn):
                 n += 1
                 a = show(eb.at(bb).op(t["args"][1]))
+                # for every beta: the call is not skipped for some values (the postfilter decides
+                # itself that beta <= 0 is a no-op - R1; a `beta > 0` test in front of it is the same)
+                def _beta_pos(pos, c):
+                    return c[0] == "bin" and show(c[2]) == "self.beta" and c[3][0] == "c" and float(c[3][1]) == 0.0 and ((c[1] in ("Gt", "Ne") and pos) or (c[1] in ("Le", "Eq") and not pos))
+                cgd = cm.value_guards(vs, eb, bb, _beta_pos)
+                cgd = [x for x in cgd if "is_first" not in x]
+                if cgd:
+                    ctx.fail("C14-R3", vs.path, "conditional postfilter", "%s is applied only when %s: for other settings the spectrum is not sharpened" % (fn.split("::")[-1], " and ".join(cgd)), cm.loc_of(t["span"]))
                 if a == "self.beta":
                     ctx.ok("C14-R3", "Vocoder::synthesize calls %s(self.beta)" % fn.split("::")[-1], cm.loc_of(t["span"]))
                 else:
